@@ -53,6 +53,10 @@ pub fn set_node_env(dir: &str) {
 
 pub async fn boot(dir: &str) -> anyhow::Result<Arc<AppShareData>> {
     set_node_env(dir);
+    // files the node writes below std::env::temp_dir() (transfer export) stay inside its own directory
+    let tmp = format!("{}/tmp", dir);
+    std::fs::create_dir_all(&tmp).ok();
+    std::env::set_var("TMPDIR", &tmp);
     let sys_config = Arc::new(AppSysConfig::init_from_env());
     let factory_data = rnacos::starter::config_factory(sys_config).await?;
     let app = rnacos::starter::build_share_data(factory_data)?;
@@ -273,6 +277,61 @@ pub async fn exec(app: &Arc<AppShareData>, op: &Value) -> Value {
                     SNAP_SESSION.with(|s| *s.borrow_mut() = Some((id.clone(), snapshot, offset)));
                     Ok(json!({"res":"ok","began":began,"finalized":false,"id":id}))
                 }
+            }
+            "transfer_export" => {
+                // the console's export: TransferWriterManager writes a file below std::env::temp_dir() (set to <dir>/tmp
+                // for this process) and answers with a handle that deletes it when dropped
+                use rnacos::transfer::model::{TransferBackupParam, TransferManagerAsyncRequest, TransferManagerResponse};
+                let tmp = std::env::temp_dir();
+                for e in std::fs::read_dir(&tmp)? {
+                    let p = e?.path();
+                    if p.extension().map(|x| x == "data").unwrap_or(false) {
+                        std::fs::remove_file(p).ok();
+                    }
+                }
+                let keep = app.transfer_writer_manager.send(TransferManagerAsyncRequest::Backup(TransferBackupParam::all())).await??;
+                let TransferManagerResponse::BackupFile(_file) = &keep;
+                let mut bytes = vec![];
+                for e in std::fs::read_dir(&tmp)? {
+                    let p = e?.path();
+                    if p.extension().map(|x| x == "data").unwrap_or(false) {
+                        bytes = std::fs::read(p)?;
+                    }
+                }
+                drop(keep);
+                Ok(json!({"res":"ok","len":bytes.len(),"hex":crate::node::hex_of(&bytes)}))
+            }
+            "transfer_import" => {
+                // the console's import (needs a leader: the importer writes through Raft); it runs behind the answer and
+                // ends with McpReq::ImportFinished - wait until that entry is the last one and applied
+                use rnacos::transfer::model::{TransferImportParam, TransferImportRequest};
+                let data = crate::node::unhex(op["hex"].as_str().unwrap_or(""));
+                app.transfer_import_manager.send(TransferImportRequest::Import(data, TransferImportParam::all())).await??;
+                let deadline = std::time::Instant::now() + std::time::Duration::from_millis(op["ms"].as_u64().unwrap_or(30000));
+                loop {
+                    let m = app.raft.metrics().borrow().clone();
+                    if m.last_log_index > 0 && m.last_applied == m.last_log_index {
+                        let v = store.get_log_entries(m.last_log_index, m.last_log_index + 1).await?;
+                        let fin = v.last().map(|e| matches!(&e.payload, EntryPayload::Normal(n) if matches!(&n.data, ClientRequest::McpReq { req: rnacos::mcp::model::actor_model::McpManagerRaftReq::ImportFinished }))).unwrap_or(false);
+                        if fin {
+                            // (component actors take the last entries asynchronously on no path here: the leader path awaits them)
+                            break Ok(json!({"res":"ok","last_log_index":m.last_log_index}));
+                        }
+                    }
+                    if std::time::Instant::now() > deadline {
+                        break Ok(json!({"res":"timeout","last_log_index":m.last_log_index,"last_applied":m.last_applied}));
+                    }
+                    tokio::time::sleep(std::time::Duration::from_millis(40)).await;
+                }
+            }
+            "read_reqs" => {
+                // log entries [a, b) with their requests (serde form); entries without a request (blank, membership) have req = null
+                let v = store.get_log_entries(op["a"].as_u64().unwrap(), op["b"].as_u64().unwrap()).await?;
+                let list: Vec<Value> = v.iter().map(|e| match &e.payload {
+                    EntryPayload::Normal(n) => json!({"index": e.index, "term": e.term, "req": serde_json::to_value(&n.data).unwrap_or(Value::Null)}),
+                    _ => json!({"index": e.index, "term": e.term, "req": Value::Null}),
+                }).collect();
+                Ok(json!({"res":"ok","entries":list}))
             }
             "target_addr" => match store.get_target_addr(op["id"].as_u64().unwrap()).await {
                 Ok(a) => Ok(json!({"res":"ok","addr":a.as_str()})),
